@@ -112,6 +112,11 @@ type c14Case struct {
 	// indices get a byte damaged (intact ones) or repaired (damaged ones) - and DriverInit runs a
 	// second time on the same driver: what is registered must follow the image as it is then
 	Again []int `json:"again,omitempty"`
+	// Reprobe (non-zero): after the first probe the firmware image changes - that value is added
+	// to a byte of the root pointer that won, which turns it into a decoy (right signature, bad
+	// checksum) - and the probe runs again: it must follow the image as it is then. The byte is
+	// put back before the tables are enumerated.
+	Reprobe uint8 `json:"reprobe,omitempty"`
 }
 
 // winner returns the index of the first valid structure on a 16-byte boundary
@@ -854,6 +859,50 @@ func c14Check(cp *c14Case, e *c14Env) (fail *vlib.Failure, herr error) {
 			desc(win), map[bool]string{false: "32-bit", true: "64-bit"}[wantX], c14Found(e, drv)), nil
 	}
 
+	// ---- the root pointer is damaged in place, the probe runs again ----------------------
+	cuts := false
+	for _, it := range c.Items {
+		cuts = cuts || it.Cut != 0 // a cut decoy's checksums run over its neighbour's bytes
+	}
+	if c.Reprobe != 0 && !cuts {
+		target := (*byte)(unsafe.Pointer(e.winLow + uintptr(c.Items[win].Slot*16+9)))
+		c14Win.protectAll(syscall.PROT_READ | syscall.PROT_WRITE)
+		*target += c.Reprobe
+		c14Win.protectAll(syscall.PROT_NONE)
+		e.arena.protectAll(syscall.PROT_NONE)
+		next := -1
+		for i, it := range c.Items {
+			if i != win && it.Valid && it.Off == 0 && it.NoSig == 0 && (next < 0 || it.Slot < c.Items[next].Slot) {
+				next = i
+			}
+		}
+		var drv2 device.Driver
+		pc := vlib.CatchFault(func() { drv2 = probeForACPI() })
+		c14Win.protectAll(syscall.PROT_READ | syscall.PROT_WRITE)
+		*target -= c.Reprobe
+		c14Win.protectAll(syscall.PROT_NONE)
+		e.arena.protectAll(syscall.PROT_NONE)
+		when := fmt.Sprintf("second probe, after a byte of the %s was changed (its checksum is wrong now)", desc(win))
+		if pc.Panicked {
+			return vlib.Failf("%s: %s", when, e.explain(pc)), nil
+		}
+		switch {
+		case next < 0 && drv2 != nil:
+			return vlib.Failf("%s: the probe returned a driver although the search area holds no valid root pointer any more (%s)", when, c14Found(e, drv2)), nil
+		case next >= 0 && drv2 == nil:
+			return vlib.Failf("%s: the probe found nothing; the search area still holds a valid %s", when, desc(next)), nil
+		case next >= 0:
+			ad2, ok := drv2.(*acpiDriver)
+			wantAddr := e.addr(e.root) + uintptr(c14RootAddrs*(next+1))
+			if c.Items[next].Rev == 0 {
+				wantAddr = uintptr(uint32(wantAddr)) // a revision-0 structure has the 32-bit field only
+			}
+			if !ok || ad2.rsdtAddr != wantAddr || ad2.useXSDT != (c.Items[next].Rev != 0) {
+				return vlib.Failf("%s: expected the %s to win now; got %s", when, desc(next), c14Found(e, drv2)), nil
+			}
+		}
+	}
+
 	// ---- table enumeration ----------------------------------------------------------
 	var kerr *kernel.Error
 	pc = vlib.CatchFault(func() { kerr = ad.DriverInit(c14Sink{&e.log}) })
@@ -1045,6 +1094,9 @@ func c14Spill(off, n int) bool {
 func c14Classify(c *c14Case, e *c14Env) (nontrivial bool, labels []string) {
 	add := func(l string) { labels = append(labels, l) }
 	win := c.winner()
+	if c.Reprobe != 0 && win >= 0 {
+		add("probed-again-after-the-winning-root-pointer-was-damaged-in-place")
+	}
 	switch {
 	case c.Win <= 1024:
 		add("win<=1K")
@@ -1613,6 +1665,9 @@ func c14Gen(t *rapid.T, st *vlib.Stats) c14Case {
 	}
 	if len(c.Tables) > 0 && rapid.IntRange(0, 5).Draw(t, "again") == 0 {
 		c.Again = rapid.SliceOfN(rapid.IntRange(0, len(c.Tables)-1), 1, 3).Draw(t, "againtables")
+	}
+	if c.winner() >= 0 && rapid.IntRange(0, 3).Draw(t, "reprobe") == 0 {
+		c.Reprobe = uint8(rapid.IntRange(1, 255).Draw(t, "reprobedelta"))
 	}
 	return c
 }
